@@ -74,6 +74,9 @@ def mon_c13(ops, obs, eng):
                 dead = True
             elif nl > 0 and 2 not in kvs and not panicked(r):
                 kvs[2] = (1, 0, 0, 0, True)
+            elif nl > 0 and 2 in kvs and not panicked(r) and val(r) != 0:
+                # launched is first-writer-wins whoever wrote the key: the batch must be ignored (result 0) and the record kept (checked by the next lookup of key 2)
+                out.append((oi, "launch batch accepted (result %s) although the launched key already exists (record %s)" % (val(r), kvs[2])))
         elif op[0] == "LK" and not panicked(r):
             toks = eng.canon(op, r)[1]
             cur = kvs.get(op[1])
